@@ -398,6 +398,8 @@ H("conn_black_hole_datagrams_native", ["C16", "C13"], "replay-only", "connection
   [("x", "u8")], 4, [], ["Connection::detect_lost_packets", "MtuDiscovery::black_hole_detected", "DatagramState::drop_oversized"], "native replay body of E2 slice query e2_black_hole_purges_datagrams_slice")
 H("conn_loss_probe_size_native", ["C13"], "replay-only", "connection::loss_probe_size_native",
   [("x", "u8")], 4, [], ["Connection::poll_transmit", "PacketBuilder::pad_to", "PacketBuilder::finish"], "native replay body of E2 slice query e2_poll_transmit_pad_guard_slice")
+H("conn_poll_transmit_gates_native", ["C07", "C12"], "replay-only", "connection::poll_transmit_gates_native",
+  [("mode", "u8")], 4, [], ["Connection::poll_transmit"], "native replay body of E2 slice query e2_poll_transmit_new_datagram_gate_slice")
 H("conn_peer_params_cid_auth_native", ["C14", "C04"], "replay-only", "connection::peer_params_cid_auth_native",
   [("server", "bool"), ("which", "u8")], 4, [], ["Connection::handle_peer_params"], "native replay body of E2 query e2_peer_params_cid_auth")
 
